@@ -156,7 +156,7 @@ theorem src_iterate_no_fault {σ : Type} (key : Go.Bytes) (n : Int) (hn : 1 ≤ 
     Src.kademlia.dhtIterate nodes key n (fun s x => pure (g s x)) st0 = .error .fuel ∨
     ∃ st, Src.kademlia.dhtIterate nodes key n (fun s x => pure (g s x)) st0 = .ok st := by
   rcases Src.dhtIterate_inv key n g (fun _ => True) (fun _ _ => True)
-      (fun _ _ _ _ _ _ => ⟨trivial, fun _ _ => trivial⟩) nodes (fun _ _ => trivial) st0 trivial with h | h | ⟨st, h, _⟩
+      (fun _ _ _ _ _ _ => ⟨trivial, fun _ _ _ => trivial⟩) nodes (fun _ _ => trivial) st0 trivial with h | h | ⟨st, h, _⟩
   · exact .inl h
   · exact absurd h.2.1 (by omega)
   · exact .inr ⟨st, h⟩
